@@ -31,7 +31,7 @@ RULE = ("one evaluation = one seeded history (<= 14 operations, <= 18 files in 3
         "separately, and compared with the model. non-trivial = >= 1 referrer produced and >= 1 comparison; distinct = distinct "
         "event-log digests")
 STATE_MEASURE = "distinct (producer, chain depth, mapping kind, feature kind, access kind / file-system situation) tuples"
-PROBES = ["access_repeated_after_transient_read_fault", "child_closed_source_still_used", "two_referrers_read_traces_interleaved", "child_reexported_after_equal_count_reselection", "result_mutated_in_place", "result_read_only", "chain_depth_3", "chain_depth_4", "child_export", "child_export_of_basin_file", "basin_only_export", "export_with_stored",
+PROBES = ["four_basins_alternating_maps", "access_repeated_after_transient_read_fault", "child_closed_source_still_used", "two_referrers_read_traces_interleaved", "child_reexported_after_equal_count_reselection", "result_mutated_in_place", "result_read_only", "chain_depth_3", "chain_depth_4", "child_export", "child_export_of_basin_file", "basin_only_export", "export_with_stored",
           "unfiltered_export", "box_filter", "map_superset", "map_permutation", "map_crosses_chunk", "two_basins", "two_basins_shared_map",
           "internal_basin", "explicit_mapname", "basin_feats_restricted", "precedence_checked", "moved_together",
           "moved_ref_only", "abs_location_still_resolves", "origin_deleted", "origin_renamed", "origin_replaced",
@@ -440,7 +440,7 @@ class World:
                     "filtered": r.random() < 0.8, "feats": r.choice(["none", "none", "some", "some", "all"]),
                     "box": r.random() < 0.25, "dir": r.choice([-1, -1, -1, 0, 1, 2]), "p": r.choice([0.3, 0.6, 0.9])}
         if x < 0.55:
-            two = r.choice(["none", "none", "none", "same_target", "same_target_shared_map", "other_target"])
+            two = r.choice(["none", "none", "none", "same_target", "same_target_shared_map", "other_target", "alternating"])
             return {"k": "store", "tgt": i, "tgt2": r.choice(us), "mapkind": r.choice(["same", "subset", "subset", "superset", "perm", "long", "ends_fixed", "ends_fixed"]),
                     "mseed": r.randrange(1 << 30), "own": r.choice([0, 1, 1, 2, 3]), "restrict": r.random() < 0.4,
                     "explicit": r.choice([None, None, None, 0, 3, 9]), "locs": r.choice(["abs", "rel", "both", "both"]),
@@ -774,6 +774,17 @@ class World:
             calls.append((dict(basin_name="b2", basin_type="file", basin_format="hdf5", basin_locs=locs_for(T), basin_descr="second",
                                basin_feats=feats2, basin_map=map2),
                           {"target": T, "locs": locs_for(T), "map": map2, "feats": feats2, "internal": None}))
+        elif two == "alternating" and bmap is not None and len(t_off) >= 4 and not op["restrict"]:
+            # four basins on the same target stored by one writer, their maps alternate: A, B, A, B
+            mapB = rs.integers(0, T.n, size=n).astype(np.uint64)
+            groups = [t_off[i::4] for i in range(4)]
+            calls[0][0]["basin_feats"] = groups[0]
+            calls[0][1]["feats"] = groups[0]
+            for gi, (nm, mp) in enumerate([("b2", mapB), ("b3", bmap.copy()), ("b4", mapB.copy())], start=1):
+                calls.append((dict(basin_name=nm, basin_type="file", basin_format="hdf5", basin_locs=locs_for(T), basin_descr=nm,
+                                   basin_feats=groups[gi], basin_map=mp),
+                              {"target": T, "locs": locs_for(T), "map": mp, "feats": groups[gi], "internal": None}))
+            ctx.probe("four_basins_alternating_maps")
         elif two == "other_target":
             T2 = self.pick(op["tgt2"], maxdepth=3)
             if T2 is not None and T2 is not T:
@@ -806,7 +817,7 @@ class World:
         pr.shuffle(pool)
         own = sorted(pool[:n_own], key=ALLF.index)
         opid = self.new_pid() if own else None
-        if pr.random() < 0.5:
+        if pr.random() < 0.5 and two != "alternating":
             pr.shuffle(calls)
         facts = {"why": "store"}
         if self.has_noid(T):
